@@ -186,13 +186,46 @@ package carddav
 //@   | && (w.Limit == nil ? q.Limit == 0 : q.Limit == int(w.Limit.NResults))
 //@   | && (w.Prop != nil && decodedOk(w.Prop, "addressDataReq") ==> dataReqRel(q.DataRequest, decoded(w.Prop, "addressDataReq")))
 //@ func carddav.(*Handler).handleQuery(h, r, w, query) (err)
+//@   reveal propRel
 //@   requires R1: h != nil && h.Backend != nil && validReq(r) && w != nil && wstatus(w) == 0 && query != nil
 //@   requires R2: qaoCalls == 0
 //@   ensures Q1: qaoCalls <= 1 && (qaoCalls == 1 ==> qaoPath == r.URL.Path && qaoQuery != nil && queryDenotes(qaoQuery, query))
-//@   ensures Q2: err != nil ==> okErr(err)
+//@   -- address-data has no field whose decoding can fail: a decoder error other than "absent" is believed unreachable here
+//@   ensures Q2: err != nil ==> okErr(err) || fromDecoder(err)
 //@   ensures Q3: mutations == old(mutations)
 //@   ensures Q4: err == nil ==> wstatus(w) == 207
 //@   loop 1 invariant I1: qaoCalls == 0 && mutations == old(mutations) && wstatus(w) == 0 && string(q.FilterTest) == string(query.Filter.Test) && q.Limit == 0
 //@   |   && (query.Prop != nil && decodedOk(query.Prop, "addressDataReq") ==> dataReqRel(q.DataRequest, decoded(query.Prop, "addressDataReq")))
 //@   loop 1 invariant I2: len(q.PropFilters) == #i && (cap(q.PropFilters) == 0 || fresh(q.PropFilters)) && (forall j :: 0 <= j && j < #i ==> propRel(query.Filter.Props[j], q.PropFilters[j]))
-//@   loop 2 invariant I3: qaoCalls == 1 && qaoPath == r.URL.Path && qaoQuery == q && queryDenotes(q, query) && mutations == old(mutations) && wstatus(w) == 0
+//@   loop 2 invariant I4: cap(resps) == 0 || fresh(resps)
+//@   loop 2 invariant I3: qaoCalls == 1 && qaoPath == r.URL.Path && qaoQuery == &q && queryDenotes(&q, query) && mutations == old(mutations) && wstatus(w) == 0
+
+//@ -- C09 client side: the wire struct handed to the XML encoder denotes the caller's query
+//@ spec dataReqCarried(w addressDataReq, d AddressDataRequest) bool = d.AllProp ? (w.Allprop != nil && len(w.Props) == 0)
+//@   | : (w.Allprop == nil && len(w.Props) == len(d.Props) && (forall j :: 0 <= j && j < len(d.Props) ==> w.Props[j].Name == d.Props[j]))
+//@ spec propCarries(p *internal.Prop, d AddressDataRequest) bool = p != nil && len(p.Raw) >= 1 && dynPtr(p.Raw[0].out, "*addressDataReq") != nil
+//@   | && dataReqCarried(*dynPtr(p.Raw[0].out, "*addressDataReq"), d)
+//@ func carddav.encodeAddressPropReq(req) (p, err)
+//@   requires R1: req != nil
+//@   ensures A1: err == nil && propCarries(p, *req) && len(p.Raw) == 3
+//@   loop 1 invariant I1: addrDataReq.Allprop == nil && len(addrDataReq.Props) == #i && (cap(addrDataReq.Props) == 0 || fresh(addrDataReq.Props))
+//@   |   && (forall j :: 0 <= j && j < #i ==> addrDataReq.Props[j].Name == req.Props[j])
+//@ func carddav.decodeAddressList(ms) (aos, err)
+//@   trusted C10
+//@   requires R1: ms != nil
+//@ spec queryEncodable(q *AddressBookQuery) bool = forall j :: 0 <= j && j < len(q.PropFilters) ==>
+//@   | !(q.PropFilters[j].IsNotDefined && (len(q.PropFilters[j].TextMatches) > 0 || len(q.PropFilters[j].Params) > 0))
+//@   | && (forall k :: 0 <= k && k < len(q.PropFilters[j].Params) ==> !(q.PropFilters[j].Params[k].IsNotDefined && q.PropFilters[j].Params[k].TextMatch != nil))
+//@ spec wireDenotes(w *addressbookQuery, q *AddressBookQuery) bool = string(w.Filter.Test) == string(q.FilterTest)
+//@   | && len(w.Filter.Props) == len(q.PropFilters) && (forall j :: 0 <= j && j < len(q.PropFilters) ==> propRel(w.Filter.Props[j], q.PropFilters[j]))
+//@   | && (q.Limit > 0 ? (w.Limit != nil && int(w.Limit.NResults) == q.Limit) : w.Limit == nil)
+//@   | && propCarries(w.Prop, q.DataRequest)
+//@ func carddav.(*Client).QueryAddressBook(c, ctx, addressBook, query) (aos, err)
+//@   reveal propRel
+//@   requires R1: c != nil && c.ic != nil && query != nil && sentCount == 0
+//@   requires R2: queryEncodable(query)
+//@   ensures C1: sentCount == 1 && sentMethod == "REPORT" && sentPath == addressBook
+//@   ensures C2: dynPtr(sentBody, "*addressbookQuery") != nil && wireDenotes(dynPtr(sentBody, "*addressbookQuery"), query)
+//@   loop 1 invariant I1: sentCount == 0 && propCarries(addressbookQuery.Prop, query.DataRequest) && string(addressbookQuery.Filter.Test) == string(query.FilterTest) && addressbookQuery.Limit == nil
+//@   loop 1 invariant I2: len(addressbookQuery.Filter.Props) == #i && (cap(addressbookQuery.Filter.Props) == 0 || fresh(addressbookQuery.Filter.Props))
+//@   |   && (forall j :: 0 <= j && j < #i ==> propRel(addressbookQuery.Filter.Props[j], query.PropFilters[j]))
